@@ -141,9 +141,12 @@ def liveness_keeps(prog, fn):
         for cid, (p, c) in pred_info.items():
             if L.derives(d, [c]):
                 k = p['subject_param']
-                a = c.args[k - 1]
-                acc = prog.accessor_call(a)
-                subject = ('acc', a, strip(acc[2])) if acc else L.subject_of(prog, a)
+                if k is None:
+                    subject = ('acc', None, strip(c.args[p['subject_index_param'] - 1]))
+                else:
+                    a = c.args[k - 1]
+                    acc = prog.accessor_call(a)
+                    subject = ('acc', a, strip(acc[2])) if acc else L.subject_of(prog, a)
                 fam = p['family']
                 tp = p['time_param']
                 tval = c.args[tp - 1] if tp and tp - 1 < len(c.args) else None
@@ -247,10 +250,11 @@ def gate_summary(prog, fn):
             tparams = set()
             ok = True
             muts = mutating_calls(prog, fn)
-            for blk, v in ret_cases(b):
-                if known_empty(prog, b, v, blk):
-                    continue
-                good = False
+            loop_headers = set(b.cfg.loops().keys())
+
+            def direct(blk, v):
+                """set of time params if a keep edge on v dominates blk with no state change after it, else None"""
+                out = set()
                 for (idx, acc, ks, sb, tval) in keeps:
                     if idx is not v:
                         continue
@@ -263,8 +267,50 @@ def gate_summary(prog, fn):
                     dirty = [m for m in muts if b.cfg.dominates(ks, m.point[0])]
                     if dirty:
                         continue
-                    good = True
-                    tparams.add(tp)
+                    out.add(tp)
+                return out or None
+
+            def edge_ok(p, blk, v, depth):
+                """the edge p -> blk is taken only when v is empty or v passed its liveness test (set of time params / empty set)"""
+                for (idx, acc, ks, sb, tval) in keeps:
+                    if idx is v and sb == p and ks == blk:
+                        tp = own_time_param(fn, tval) if tval is not None else None
+                        if isinstance(tp, int):
+                            return {tp}
+                d = b.switch_discr.get(p)
+                if d is not None:
+                    d = strip(d)
+                    if d.kind == 'bin' and d.args[0] in ('Eq', 'Ne'):
+                        x, y = strip(d.args[1]), strip(d.args[2])
+                        if (x is v and prog.is_empty_ref(y)) or (y is v and prog.is_empty_ref(x)):
+                            tr = edge_truth(b.mir['blocks'][p]['term'], blk)
+                            if tr is not None and (tr if d.args[0] == 'Eq' else not tr):
+                                return set()
+                return block_ok(p, v, depth + 1)
+
+            def block_ok(blk, v, depth=0):
+                if known_empty(prog, b, v, blk):
+                    return set()
+                dr = direct(blk, v)
+                if dr is not None:
+                    return dr
+                if depth > 3 or blk in loop_headers or not b.cfg.pred[blk]:
+                    return None
+                if any(m.point[0] == blk for m in muts):
+                    return None
+                acc_t = set()
+                for p in b.cfg.pred[blk]:
+                    r = edge_ok(p, blk, v, depth)
+                    if r is None:
+                        return None
+                    acc_t |= r
+                return acc_t
+
+            for blk, v in ret_cases(b):
+                r = block_ok(blk, v)
+                good = r is not None
+                if good:
+                    tparams |= r
                 if not good:
                     ok = False
                     reasons.append('returns %s at bb%d without a passed liveness test on it' % (show(v, 3), blk))
